@@ -145,6 +145,8 @@ pub struct CaseStats {
     pub empty_key: bool,
     pub huge_key: bool,
     pub in_tx_scans: u64,
+    /// bucket handles adopted from range(..).to_buckets() / cursor().to_buckets()
+    pub iter_handles: u64,
     pub multi_leaf_tx_with_delete_and_insert: bool,
     pub max_pages: u64,
     pub final_entries: u64,
@@ -1461,6 +1463,42 @@ pub fn exec_op<'b, 'tx, 'r>(ctx: &mut TxCtx<'b, 'tx, 'r>, op: &Op, work: &mut MB
             let h = ctx.handles.get(&p).unwrap();
             ctx.stats.ranges += 1;
             check_range(h, mb, &lo, &hi, *mode, 2, &path_str(&p))?;
+            // the handles a range (or a cursor) hands out through to_buckets() are real handles:
+            // they replace the remembered ones, so later operations of this transaction (writes
+            // that must fail in a read-only transaction included) go through them
+            if matches!(*mode % 6, 0 | 2 | 4) && !p.is_empty() {
+                use jammdb::ToBuckets;
+                let los: Bound<&[u8]> = match &lo {
+                    Bound::Unbounded => Bound::Unbounded,
+                    Bound::Included(a) => Bound::Included(a.as_slice()),
+                    Bound::Excluded(a) => Bound::Excluded(a.as_slice()),
+                };
+                let his: Bound<&[u8]> = match &hi {
+                    Bound::Unbounded => Bound::Unbounded,
+                    Bound::Included(a) => Bound::Included(a.as_slice()),
+                    Bound::Excluded(a) => Bound::Excluded(a.as_slice()),
+                };
+                let limit = mb.entries.len() + 4;
+                let mut subs = Vec::new();
+                if *mode % 6 == 0 {
+                    for (n, sb) in h.cursor().to_buckets().take(limit) {
+                        subs.push((n.name().to_vec(), sb));
+                    }
+                } else {
+                    for (n, sb) in h.range((los, his)).to_buckets().take(limit) {
+                        subs.push((n.name().to_vec(), sb));
+                    }
+                }
+                for (k, sb) in subs {
+                    if !matches!(mb.entries.get(&k), Some(MNode::Bucket(_))) {
+                        return Err(Failure::new("range", format!("to_buckets() on {} handed out a bucket named {} that does not exist", path_str(&p), hex(&k))));
+                    }
+                    let mut np = p.clone();
+                    np.push(k);
+                    ctx.stats.iter_handles += 1;
+                    ctx.handles.insert(np, sb);
+                }
+            }
         }
         Op::Buckets { b } => {
             let p = match select_path(work, *b, true) {
